@@ -2225,7 +2225,7 @@ func (s *sch) coq() string {
 }
 
 func runC19(c *core.Ctx) {
-	c.Res.Rule = "variant value trees generated at random (depth <= 5, every primitive kind with edge values, strings of length 0,1,62..65,80 with multi-byte UTF-8, names from a small pool shared with the schemas plus empty/long/unicode names) and boundary trees (arrays/objects of 0,1,2,254..257 elements; container payloads of exactly 254..257 and 65534..65537 bytes with 1..3 elements; dictionaries of 255..300 names followed by small objects using the highest ids; dictionary bytes of 254..257 and 65535/65536; sorted and unsorted dictionaries); each tree: variant.Encode bytes == model bytes, Decode(Encode(v)) == v, model decoder on Go's bytes == v, Marshal/Unmarshal of the Go value, and random conforming non-canonical encodings (wider offsets, is_large, long-form strings, shuffled object values, permuted dictionaries) through both decoders. Files: random shredding schemas (all typed leaves, objects, lists, nesting <= 3) and unshredded columns x optional/required x page v1/v2 x typed/raw write x writer/buffer/rows plumbing, several rows with nulls; every row read back typed, raw and converted to unshredded must equal the written value, and the stored leaf columns must equal the model's shredding. Non-trivial = container or string at the root (encode cases), every file case; distinct by tree / case text."
+	c.Res.Rule = "variant value trees generated at random (depth <= 5, every primitive kind with edge values, strings of length 0,1,62..65,80 with multi-byte UTF-8, names from a small pool shared with the schemas plus empty/long/unicode names) and boundary trees (arrays/objects of 0,1,2,254..257 elements; container payloads of exactly 254..257 and 65534..65537 bytes with 1..3 elements; dictionaries of 255..300 names followed by small objects using the highest ids; dictionary bytes of 254..257 and 65535/65536; sorted and unsorted dictionaries); each tree: variant.Encode bytes == model bytes, Decode(Encode(v)) == v, model decoder on Go's bytes == v, variant.Builder through Value.Write (round trip, metadata == Encode's, value == Encode's when fields arrive in name order, else model decoder), Marshal/Unmarshal of the Go value, and random conforming non-canonical encodings (wider offsets, is_large, long-form strings, shuffled object values, permuted dictionaries) through both decoders. Files: random shredding schemas (all typed leaves, objects, lists, nesting <= 3) and unshredded columns x optional/required x page v1/v2 x typed/raw write x writer/buffer/rows plumbing, several rows with nulls; every row read back typed, raw and converted to unshredded must equal the written value, and the stored leaf columns must equal the model's shredding. Thresholds (bounds.go): array / object children, dictionary names totalling 0xFE..0x101, 0xFFFE..0x10001 and 0xFFFFFF, 0x1000000 (thorough also 0xFFFFFE, 0x1000001) bytes, highest field id 0xFE..0x100 and 0xFFFE..0x10000 (thorough: around 2^24), through Encode and Builder: Go round trip, header bytes == the model's header functions on the sizes, payload == the children, offset-size fields == offset_size_code of the number. Nested (nested.go): the variant column below a repeated group, a LIST, as a repeated node, below an optional group and below repeated-in-optional, variant node required/optional, rows of 0..3 items / absent groups / null items, schemas biased to lists, same write and read combinations, every item compared, leaf columns compared per item as delimited by the stored levels. Non-trivial = container or string at the root (encode cases), every file case; distinct by tree / case text."
 	g := &gen{c: c, names: []string{"a", "b", "c", "d", "e"}}
 	var vmEnc, vmShred []string
 
@@ -2351,16 +2351,18 @@ func runC19(c *core.Ctx) {
 	}
 
 	// vm_compute sample
-	c.Vm("From Coq Require Import List ZArith NArith Bool.\nFrom PQ Require Import Base.Bytes Variant.Model Variant.Shred.\nImport ListNotations.\nOpen Scope N_scope.")
+	c.Vm("From Coq Require Import List ZArith NArith Bool.\nFrom PQ Require Import Base.Bytes Variant.Model Variant.Shred Variant.Header.\nImport ListNotations.\nOpen Scope N_scope.")
 	c.Vm("Fixpoint veqb (a b : value) {struct a} : bool :=\n  match a, b with\n  | VNull, VNull => true\n  | VBool x, VBool y => Bool.eqb x y\n  | VInt k x, VInt k' y => (int_id k =? int_id k') && Z.eqb x y\n  | VFlt k x, VFlt k' y => (flt_id k =? flt_id k') && (x =? y)\n  | VDec k s x, VDec k' s' y => (dec_id k =? dec_id k') && (s =? s') && Z.eqb x y\n  | VBinary x, VBinary y => beq x y\n  | VString x, VString y => beq x y\n  | VUuid x, VUuid y => beq x y\n  | VArray l, VArray l' => (fix go (l l' : list value) : bool := match l, l' with [] , [] => true | x :: r, y :: r' => veqb x y && go r r' | _, _ => false end) l l'\n  | VObject l, VObject l' => (fix go (l : list (bytes * value)) (l' : list (bytes * value)) : bool := match l, l' with [] , [] => true | (k, x) :: r, (k', y) :: r' => beq k k' && veqb x y && go r r' | _, _ => false end) l l'\n  | _, _ => false\n  end.")
 	c.Vm("Definition beqs (a b : bytes) : bool := beq a b.")
 	c.Vm("Definition enc_cases : list (value * bytes * bytes) := [\n  " + strings.Join(vmEnc, ";\n  ") + "].")
 	c.Vm("Definition enc_bad := filter (fun '(v, m, b) => negb (let '(m', b') := encode v in beqs m m' && beqs b b' && match decode m b with Some v' => veqb v' (canon v) | None => false end)) enc_cases.")
 	c.Vm("Definition shred_cases : list (schema * value) := [\n  " + strings.Join(vmShred, ";\n  ") + "].")
 	c.Vm("Definition shred_bad := filter (fun '(s, v) => negb (match reconstruct s (shred s v) with Some (Some v') => veqb (canon v') (canon v) | _ => false end && let '(m, f) := shred_bytes s v in match reconstruct_bytes s m f with Some (Some v') => veqb (canon v') (canon v) | _ => false end)) shred_cases.")
-	c.Vm("Definition mismatches := (map (fun '(v, _, _) => (SNone, v)) enc_bad) ++ shred_bad.")
-	c.Vm("Definition M := Eval vm_compute in ((length enc_cases + length shred_cases)%nat, mismatches).\nPrint M.")
-	c.Res.VmCases = len(vmEnc) + len(vmShred)
+	c.Vm("Definition hdr_cases : list (list N * bytes) := [\n  " + strings.Join(vmHeaders, ";\n  ") + "].")
+	c.Vm("Definition hdr_bad := filter (fun '(sizes, h) => negb (beqs (array_header sizes) h)) hdr_cases.")
+	c.Vm("Definition mismatches := (map (fun '(v, _, _) => (SNone, v)) enc_bad) ++ shred_bad ++ map (fun '(sizes, _) => (SNone, VArray (map (fun n => VInt I64 (Z.of_N n)) sizes))) hdr_bad.")
+	c.Vm("Definition M := Eval vm_compute in ((length enc_cases + length shred_cases + length hdr_cases)%nat, mismatches).\nPrint M.")
+	c.Res.VmCases = len(vmEnc) + len(vmShred) + len(vmHeaders)
 	c.Note("float32 values are generated without signalling NaNs: variant.Value keeps a float32 as float64 and the conversion quiets them (hardware behaviour; stated assumption)")
 	c.Note("typed writes use only kinds with a Go-native mapping (variant.ValueOf); dates, times, *_ntz timestamps and decimals enter through raw writes")
 }
